@@ -373,7 +373,17 @@ class C08SafeOutputs(Oracle):
         self.restart_in_flight = 0
         self.ev_pos_c08 = 0
 
+    recent_button: tuple | None = None
+
     def before_request(self, kind, msg):
+        if kind == "control" and getattr(msg, "name", "") in ("OpenValve", "Full"):
+            out = "OUT2" if msg.name == "OpenValve" else "OUT1"
+            if self.w.state == "Paused":
+                self.user_touched.add(out)     # the user commands that output during the pause
+            else:
+                # pressed in the gap before the tick in which a pause begins: it executes in that tick, possibly after the
+                # Pause command - from the engine's point of view the user commanded the output during the pause
+                self.recent_button = (self.w.tick_no, out)
         if kind == "inject" and self.w.state == "Paused":
             txt = msg.pcode
             if any(k in txt for k in ("Set1", "Ramp")):
@@ -391,7 +401,11 @@ class C08SafeOutputs(Oracle):
         # a Restart passes through Stopped without being a Stop; it may stay there a tick longer when another command
         # fails in the tick in which it would finish (the failure ends that tick's command phase). Until the new run
         # has started the Stopped state belongs to the Restart
-        if st == "Restarting":
+        recent = [r for r in w.requests if r[1] == "control" and r[2] in ("Stop", "Restart") and r[3] and w.tick_no - r[0] <= 4]
+        if st == "Restarting" or (recent and recent[-1][2] == "Restart" and not any(e[1] == "start" and e[0] > recent[-1][0]
+                                                                                   for e in w.events[-12:])):
+            # (the state may never show Restarting at a tick boundary: a timed Pause cancelled by the Restart unpauses and
+            # sets Running in the same tick)
             self.restart_in_flight = 6
         elif any(e[1] == "start" for e in w.events[self.ev_pos_c08:]):
             self.restart_in_flight = 0
@@ -414,6 +428,10 @@ class C08SafeOutputs(Oracle):
             for name, sv in SAFE_HW.items():
                 if mem.get(name) != sv:
                     self.v("C08", kind, name, f"state Stopped ({self.phase}) but hardware holds {name}={mem.get(name)!r}, safe {sv!r}")
+        if st == "Paused" and self.prev_state != "Paused" and self.recent_button and self.recent_button[0] == w.tick_no - 1:
+            self.user_touched.add(self.recent_button[1])
+        if st == "Stopped" and (self.phase == "boot" or self.stopped_ticks >= 2) and not self.restart_in_flight:
+            pass
         elif st == "Paused" and self.prev_state == "Paused":
             # from the tick after the transition to Paused
             for name, sv in SAFE_HW.items():
@@ -457,7 +475,17 @@ class C09Unpause(Oracle):
     def _outs(self):
         return {n: self.w.tag(n) for n in SAFE}
 
+    recent_button: tuple | None = None
+
     def before_request(self, kind, msg):
+        if kind == "control" and getattr(msg, "name", "") in ("OpenValve", "Full"):
+            out = "OUT2" if msg.name == "OpenValve" else "OUT1"
+            if self.w.state == "Paused":
+                self.user_touched.add(out)     # the user commands that output during the pause
+            else:
+                # pressed in the gap before the tick in which a pause begins: it executes in that tick, possibly after the
+                # Pause command - from the engine's point of view the user commanded the output during the pause
+                self.recent_button = (self.w.tick_no, out)
         if kind == "inject" and self.w.state == "Paused":
             txt = msg.pcode
             if any(k in txt for k in ("Set1", "Ramp")):
